@@ -643,13 +643,6 @@ Proof.
   destruct (trunc_app limit w more) as [m' ->]. apply chain_iter_ext.
 Qed.
 
-(* *last_length is written by every iteration: its initial value does not matter *)
-Lemma chain_from_last tags w limit e l1 l2 step consumed : tags <> [] ->
-  chain_from tags w limit e l1 step consumed = chain_from tags w limit e l2 step consumed.
-Proof.
-  destruct tags as [|tag tags]; [congruence|]. intros _. rewrite !chain_from_cons. reflexivity.
-Qed.
-
 Lemma chain_from_shift : forall tags w limit e last step consumed,
   chain_from tags w limit e last step consumed = shift consumed (chain_from tags w limit e last step O).
 Proof.
